@@ -1030,6 +1030,11 @@ class CallMixin(object):
             if es is not None:
                 self.assume(s2, self.spec_formula(s2, es, item.t))
             val = self.call_value(s2, f, [item], {}, line)
+            if isinstance(val, V):
+                # f returns a plain value / an object: the mapped list holds it directly
+                self.assume(st, z3.Implies(rng, z3.Select(inner, w) == val.t))
+                specs = val.hint
+                continue
             if not isinstance(val, PyTuple) or not all(isinstance(x, V) for x in val.items):
                 raise EngineError('list(map(f, L)): f must return a tuple of plain values')
             tid = z3.If(rng, base + 1 + w, base)
@@ -1042,6 +1047,8 @@ class CallMixin(object):
             self.assume(st, z3.Implies(rng, And(z3.Select(inner, w) == mkR(base + 1 + w), cls_of(base + 1 + w) == UNIVERSE.cid(tuple))))
             specs = [x.hint for x in val.items]
         self.trust('list(map(f, L)): element-wise image as fresh tuples (instantiated at the list ends and the ghost indices)')
+        if isinstance(specs, TypeSpec) or specs is None and False:
+            return V(mkR(nr), TypeSpec('list', (), False, specs))
         return V(mkR(nr), TypeSpec('list', (), False, TypeSpec('tuple', (), False, specs)))
 
     def str_method(self, st, s, name, args, kwargs, line):
